@@ -307,15 +307,21 @@ func (p *pgen) goal(depth, from int, allowCut bool) *G {
 			}
 		case 18:
 			if f.bag && depth > 0 {
-				which := "bagof"
-				if r.coin(0.4) {
-					which = "setof"
-				}
 				g := p.conj(depth-1, from, false)
+				if r.coin(0.4) {
+					// setof: the template is a variable made ground by the goal, so that the sorted
+					// result does not hinge on the order of distinct unbound variables
+					tv := gv(r.intn(p.nvars))
+					g = gc(",", gc("member", tv, p.smallList()), g)
+					if r.coin(0.3) {
+						g = gc("^", gv(r.intn(p.nvars)), g)
+					}
+					return gc("setof", tv, g, gv(r.intn(p.nvars)))
+				}
 				if r.coin(0.3) {
 					g = gc("^", gv(r.intn(p.nvars)), g)
 				}
-				return gc(which, p.term(1), g, gv(r.intn(p.nvars)))
+				return gc("bagof", p.term(1), g, gv(r.intn(p.nvars)))
 			}
 		case 19:
 			if f.builtinErr {
